@@ -14,6 +14,8 @@ mod c05;
 mod scenes;
 mod c06;
 mod c07;
+mod c08;
+mod mutate;
 mod rops;
 mod c10;
 mod c11;
@@ -38,6 +40,9 @@ use registry::{checks, Check, Stage};
 use std::collections::BTreeMap;
 use std::time::{Duration, Instant};
 
+#[global_allocator]
+static GLOBAL: c08::Counting = c08::Counting;
+
 fn verif_dir() -> std::path::PathBuf {
     std::env::var("VERIF_DIR").map(std::path::PathBuf::from).unwrap_or_else(|_| std::path::PathBuf::from("/verif"))
 }
@@ -48,6 +53,8 @@ fn main() {
     match cmd {
         "worker" => {
             harness::install_panic_hook(false);
+            let cap: u64 = std::env::var("MC_ALLOC_CAP").ok().and_then(|s| s.parse().ok()).unwrap_or(2 << 30);
+            c08::ALLOC_CAP.store(cap, std::sync::atomic::Ordering::Relaxed);
             let all = checks();
             explore::worker_loop(&|name| all.iter().flat_map(|c| c.stages.iter()).find(|s| s.space == name).map(|s| s.f));
         }
@@ -224,7 +231,18 @@ fn run_check(id: &str, tier: &str) -> i32 {
         machinery.extend(r.machinery_errors.iter().cloned());
         total_viol += r.violations_total;
         for v in &r.violations {
-            let sig = if v.kind == "oracle" { v.sig.clone() } else { format!("{}/{}", check.id, v.sig) };
+            let oom = v.kind == "crash" && v.detail.contains("exit status: 97");
+            if check.ignore_resource_deaths && (oom || v.kind == "timeout") {
+                // memory exhaustion and hangs are C09's business (the same sweep runs there)
+                continue;
+            }
+            let sig = if v.kind == "oracle" {
+                v.sig.clone()
+            } else if oom {
+                format!("{}/out-of-memory/{}", check.id, st.space)
+            } else {
+                format!("{}/{}", check.id, v.sig)
+            };
             by_sig.entry(sig).or_insert_with(|| (st.space.to_string(), v.clone()));
         }
     }
